@@ -10,14 +10,15 @@ TIME_BUDGET = {'quick': 900, 'thorough': 3300}
 OPTS = {'quick': {'hash_order': 'insertion', 'step_budget': 3000000}, 'thorough': {'hash_order': 'insertion', 'step_budget': 8000000}}
 VALIDATION_ALLOW_FORKS = True
 BOUNDS = {
-    'quick': 'corpora of 1-2 lines with 1-2 words of 1-4 symbolic letters (at most 5 letters in total) over {a, b, c} (so that pairs overlap, repeat inside '
+    'quick': 'corpora of 1-2 lines with 1-3 words of 1-4 symbolic letters (at most 6 letters in total) over {a, b, c} (so that pairs overlap, repeat inside '
              'words and the corpus is exhausted before the requested number of merges); requested merges 0-5 (vocab_size 320, '
              'num_special_tokens 59-64) and vocab_size 256; normalization None; 1 or 2 counting threads (sequentialised, message '
              'order arbitrary)',
     'thorough': 'up to 3 lines, words of up to 5 letters (at most 7 letters in total), up to 6 merges',
 }
-OUTSIDE = ['NFKC normalisation, real files, msgpack encoding of the table (captured in memory)', 'HashMap iteration order fixed '
-           'to insertion order (ties between equally frequent pairs are resolved in that order; any maximal pair is accepted by the oracle)',
+OUTSIDE = ['NFKC normalisation, real files, msgpack encoding of the table (captured in memory)', 'HashMap iteration order: the '
+           'choice among equally frequent pairs is arbitrary (every tied pair explored); all other hash iterations are in insertion order '
+           '(they only affect internal word indices)',
            'larger corpora / alphabets']
 ASSUMPTIONS = ['files are in-memory line lists; worker threads sequentialised (lines are counted independently, the reducer is '
                'a commutative sum; see C05 for the mutex / channel protocol)', 'oracle: independent recount of adjacent pair frequencies '
@@ -27,7 +28,8 @@ KNOWN_MATCHERS = {}
 
 def shapes(tier):
     out = []
-    layouts = [[[1]], [[2]], [[3]], [[2, 1]], [[2], [2]], [[3], [1]], [[3, 2]], [[1], [3]], [[4]], [[2, 2]], [[3], [2]], [[2, 1], [2]]]
+    layouts = [[[1]], [[2]], [[3]], [[2, 1]], [[2], [2]], [[3], [1]], [[3, 2]], [[1], [3]], [[4]], [[2, 2]], [[3], [2]], [[2, 1], [2]],
+               [[1, 1, 1]], [[1, 1, 1], [2]], [[1, 2, 2]], [[2, 2, 2]]]
     if tier != 'quick':
         layouts += [[[3], [3]], [[2], [2], [2]], [[4, 2]], [[5]], [[3, 3]], [[4], [3]], [[2, 2], [2, 1]]]
     for lay in layouts:
@@ -176,6 +178,16 @@ def native_outputs(native, shape, inputs):
 
 
 def concrete_check(native, inputs, shape):
+    # ties between equally frequent pairs are broken by the (randomly keyed) hash order: repeat the native run
+    failed = []
+    for _ in range(16):
+        for f in _concrete_check_once(native, inputs, shape):
+            if f not in failed:
+                failed.append(f)
+    return failed
+
+
+def _concrete_check_once(native, inputs, shape):
     k, v = _native(native, shape, inputs)
     if k != 'ok':
         return ['no panic']
